@@ -19,8 +19,11 @@ from concurrent.futures import ThreadPoolExecutor
 VERIF = os.path.dirname(os.path.dirname(os.path.dirname(os.path.abspath(__file__))))
 COQ = os.path.join(VERIF, "coq")
 GEN = os.path.join(COQ, "gen")
-REPLAYS = os.path.join(VERIF, "replays")
-EVIDENCE = os.path.join(VERIF, "evidence")
+# VQ_OUT redirects replays/evidence (used by the mutant tools so that a run against a scratch
+# worktree never touches the committed evidence); the registered commands never set it.
+_OUT = os.environ.get("VQ_OUT")
+REPLAYS = os.path.join(_OUT, "replays") if _OUT else os.path.join(VERIF, "replays")
+EVIDENCE = os.path.join(_OUT, "evidence") if _OUT else os.path.join(VERIF, "evidence")
 REPO = os.environ.get("VQ_REPO", "/repo")
 COQ_FLAGS = ["-Q", "theories", "VQ", "-Q", "props", "VQP", "-Q", "gen", "VQG"]
 
@@ -273,7 +276,7 @@ class Ctx:
         shards = [terms[i:i + shard] for i in range(0, len(terms), shard)]
         jobs = []
         for k, sh_terms in enumerate(shards):
-            name = f"cases_{self.pid}_{tag}_{k}"
+            name = f"cases_{self.pid}_{os.getpid()}_{tag}_{k}"
             body = [header, "", f"Definition cases : list ({ctype}) := ["]
             body.append(";\n".join("  " + t for t in sh_terms))
             body.append("].")
